@@ -99,7 +99,25 @@ CLAIMS.update({
             "own lock; free-running multi-thread runs are recorded as well; TLC (spec/TraceLock.tla) validates every "
             "event trace and the version each snapshot shows.", "5 C18"),
 })
-QUERY = {"C17", "C05", "C06", "C08", "C09", "C10", "C12", "C14", "C15", "C16"}
+CLAIMS.update({
+    "C11": ("The diff laws are a declarative TLA+ specification (spec/NutreeDiff.tla, nodes identified by data-path): "
+            "identical => no marks; dropping removed/moved-away gives T1's parent-child relation; dropping added/moved-here "
+            "gives T0's child lists in order below nodes present in both; marks exactly on one-sided children; moved-here "
+            "has a moved-away partner; order marks carry the true indexes; reduce keeps exactly marked nodes + ancestors; "
+            "inputs unmodified. All ordered pairs of labelled forests with clones in the bound (states enumerated by TLC) "
+            "and random larger pairs x ordered x reduce are diffed with the real code; TLC (TraceDiff) evaluates every "
+            "law on each result.", "5 C11"),
+    "C19": ("Scan(D, sort) is defined in spec/NutreeFs.tla; every directory shape in the bound (forests x file/dir "
+            "flags, enumerated by TLC) is materialised with sort-sensitive names, scanned with sort on/off, saved and "
+            "reloaded with the FileSystemTree mappers; TLC (TraceFs) compares entries, depth, flags and sorted order; "
+            "size/mtime are compared by the harness with os.stat.", "5 C19"),
+    "C20": ("spec/NutreeGen.tla defines Conforms(tree, def) (allowed child types per relation, children grouped in "
+            "relation order, counts in range, attributes = merge(global, type, relation) with idx/hier expansion, value "
+            "ranges, optional attributes); TLC checks that every outcome of a nondeterministic generator model conforms "
+            "and that four mutated generators are rejected; a library of structure definitions x seeds x Tree/TypedTree is "
+            "built by the real generator and TLC (TraceGen) evaluates Conforms clause by clause.", "5 C20"),
+})
+QUERY = {"C11", "C19", "C20", "C17", "C05", "C06", "C08", "C09", "C10", "C12", "C14", "C15", "C16"}
 LOCK_NOTE = ("Trusted base: TLC; CPython threading; the delegating lock wrapper and cooperative scheduler of "
              "harness/lock.py. Reads are observed through user callbacks and snapshot content, not through source hooks.")
 TECHNIQUE = "TLA+ spec + TLC model checking; spec->code transition replay and code->spec trace validation by TLC"
